@@ -6,7 +6,7 @@ from typing import Any
 
 from sa.kern import make_evaluator
 from sa.report import Ctx
-from sa.srcmodel import ClassInfo, FuncInfo, func_body
+from sa.srcmodel import ClassInfo, FuncInfo, func_body, inline_locals
 from sa.symterm import (Env, Evaluator, Poly, Unsupported, show)
 
 DEC = "moptipyapps.binpacking2d.instgen.inst_decoding"
@@ -205,11 +205,16 @@ def run(ctx: Ctx) -> None:
                 fi.module, n.func) is inst_cls:
             call = n
     ctx.need(call is not None, "decode: Instance(...) is created")
+    # the item list: a local bound to a list display / comprehension
     lists = [s for s in body if isinstance(s, (ast.Assign, ast.AnnAssign))
-             and isinstance(s.value, ast.ListComp) and isinstance(
-                 s.value.elt, ast.List)]
-    items_name = (lists[0].targets[0] if isinstance(lists[0], ast.Assign)
-                  else lists[0].target).id if lists else None
+             and isinstance(getattr(s, "value", None),
+                            (ast.ListComp, ast.List))
+             and isinstance(s.targets[0] if isinstance(s, ast.Assign)
+                            else s.target, ast.Name)]
+    list_names = {(s.targets[0] if isinstance(s, ast.Assign)
+                   else s.target).id for s in lists}
+    items_name = call.args[3].id if len(call.args) == 4 and isinstance(
+        call.args[3], ast.Name) and call.args[3].id in list_names else None
     ok_call = len(call.args) == 4 and not call.keywords and isinstance(
         call.args[3], ast.Name) and call.args[3].id == items_name
     ctx.ob("D17.2", fi, call, ok_call,
@@ -221,21 +226,72 @@ def run(ctx: Ctx) -> None:
         return
     items = call.args[3].id
     # phases
+    # phase 1: the top-level `for` that searches (inner `while`) for an
+    # item to split and appends the second piece (a plain loop that fills
+    # the initial list has no search)
     phase1 = next((s for s in body if isinstance(s, ast.For) and any(
         isinstance(c, ast.Call) and isinstance(c.func, ast.Attribute)
         and c.func.attr == "append" and isinstance(c.func.value, ast.Name)
-        and c.func.value.id == items for c in ast.walk(s))), None)
-    phase2 = next((s for s in body if isinstance(s, ast.While) and any(
-        isinstance(n, ast.Name) and n.id == "current_area"
-        for n in ast.walk(s.test))), None)
+        and c.func.value.id == items for c in ast.walk(s)) and any(
+        isinstance(w, ast.While) for w in ast.walk(s))), None)
+    # phase 2: the first top-level `while` after phase 1; its test compares
+    # the area ledger (assigned in the loop) with the floor (not assigned)
+    phase2 = next((s for s in body if isinstance(s, ast.While)
+                   and phase1 is not None
+                   and body.index(s) > body.index(phase1)), None)
+    LEDGER = FLOOR = None
+    if phase2 is not None:
+        st_ = {n.id for n in ast.walk(phase2) if isinstance(n, ast.Name)
+               and isinstance(n.ctx, ast.Store)}
+
+        def const_step(nm: str) -> bool:
+            """Is every update of `nm` in the loop a step by a constant?"""
+            for u in ast.walk(phase2):
+                if isinstance(u, ast.AugAssign) and isinstance(
+                        u.target, ast.Name) and u.target.id == nm:
+                    if not isinstance(repo.const(fi.module, u.value),
+                                      (int, float)):
+                        return False
+                elif isinstance(u, (ast.Assign, ast.AnnAssign)) and any(
+                        isinstance(t, ast.Name) and t.id == nm for t in (
+                            u.targets if isinstance(u, ast.Assign)
+                            else [u.target])) and u.value is not None:
+                    v = u.value
+                    if not (isinstance(v, ast.BinOp) and isinstance(
+                            v.op, (ast.Add, ast.Sub)) and any(
+                            isinstance(repo.const(fi.module, z),
+                                       (int, float))
+                            for z in (v.left, v.right))):
+                        return False
+            return True
+        pairs = []
+        for c in ast.walk(phase2.test):
+            if isinstance(c, ast.Compare) and len(c.ops) == 1 and isinstance(
+                    c.left, ast.Name) and isinstance(
+                    c.comparators[0], ast.Name):
+                a_, b_ = c.left.id, c.comparators[0].id
+                # the loop runs while ledger > floor, and the floor is
+                # fixed (a rising counter `i < n` has its smaller side
+                # changing)
+                big = small = None
+                if isinstance(c.ops[0], (ast.Gt, ast.GtE)):
+                    big, small = a_, b_
+                elif isinstance(c.ops[0], (ast.Lt, ast.LtE)):
+                    big, small = b_, a_
+                if big is not None and small not in st_:
+                    pairs.append((big, small))
+        if len(pairs) == 1:
+            LEDGER, FLOOR = pairs[0]
     if phase1 is None:
         ctx.ob("D17.1", fi, fi.node, False,
                "no loop appends the second piece of a cut to the item list: "
                "the number of items never reaches the template's",
                construct="one append per cut")
         return
-    ctx.need(phase2 is not None, "decode: phase-2 slack loop guarded by "
-             "current_area")
+    ctx.need(phase2 is not None and LEDGER is not None,
+             "decode: phase-2 slack loop guarded by `area > floor`")
+    global _LEDGER, _FLOOR
+    _LEDGER, _FLOOR = LEDGER, FLOOR
     _phase1(ctx, fi, phase1, items)
     _phase2(ctx, fi, phase2, items, body)
     _dataflow(ctx, fi, body, call, phase1, phase2)
@@ -249,7 +305,7 @@ def run(ctx: Ctx) -> None:
     _merge_and_deliver(ctx, fi, items, call)
     ctx.rule("D17.8", "search protocol: domains of the cutting dimension "
              "and direction, full cyclic scan, safe moduli")
-    _search_protocol(ctx, fi)
+    _search_protocol(ctx, fi, items)
     ctx.rule("D17.9", "the similarity objective is 0 on the template")
     _zero_on_template(ctx)
     _clamps(ctx)
@@ -258,6 +314,10 @@ def run(ctx: Ctx) -> None:
         "Instance(...) validates what it is given (C03/C19 cover its "
         "bounds)",
     ]
+
+
+_LEDGER = "current_area"
+_FLOOR = "min_area"
 
 
 def _top_env(be: BlockEval, body: list[ast.stmt], upto: ast.stmt) -> Env:
@@ -364,7 +424,7 @@ def _phase2(ctx: Ctx, fi: FuncInfo, loop: ast.While, items: str,
     recompute = None
     for s in loop.body:
         if isinstance(s, ast.Assign) and any(
-                isinstance(t, ast.Name) and t.id == "current_area"
+                isinstance(t, ast.Name) and t.id == _LEDGER
                 for t in s.targets):
             v = s.value
             if isinstance(v, ast.Call) and isinstance(
@@ -377,8 +437,8 @@ def _phase2(ctx: Ctx, fi: FuncInfo, loop: ast.While, items: str,
         blk = ch[-1][0]
         be = BlockEval(ctx, fi, shallow=True)
         env = Env()
-        area0 = Poly.var("current_area")
-        env.vars["current_area"] = area0
+        area0 = Poly.var(_LEDGER)
+        env.vars[_LEDGER] = area0
         for b, i in ch[:-1]:
             env = be.run(env, b[:i])
         before_env = env.copy()
@@ -386,7 +446,7 @@ def _phase2(ctx: Ctx, fi: FuncInfo, loop: ast.While, items: str,
         # full (deep) evaluation of the same context for the cut limit
         bef = BlockEval(ctx, fi)
         envf = Env()
-        envf.vars["current_area"] = area0
+        envf.vars[_LEDGER] = area0
         for b, i in ch[:-1]:
             envf = bef.run(envf, b[:i])
         envf_before = envf.copy()
@@ -403,7 +463,7 @@ def _phase2(ctx: Ctx, fi: FuncInfo, loop: ast.While, items: str,
                 ("cell", X, (o,)))
             new = be.val(env, X, d) * be.val(env, X, o)
             delta_items = new - old
-            cur = env.vars.get("current_area")
+            cur = env.vars.get(_LEDGER)
             delta_ledger = (cur - area0) if isinstance(cur, Poly) else None
             if recompute is not None and delta_ledger == Poly():
                 ok = True
@@ -423,23 +483,35 @@ def _phase2(ctx: Ctx, fi: FuncInfo, loop: ast.While, items: str,
                construct="phase-2 ledger update",
                witness=None if ok else {
                    "store": ast.unparse(st),
-                   "ledger_variable": "current_area"})
+                   "ledger_variable": _LEDGER})
         # the slack budget: removed area = cut_position * other must leave
         # more than (min_bins - 1) * bin_area
-        lim = envf.vars.get("cut_modulus")
-        cp = envf.vars.get("cut_position")
+        lim = cp = None
         touched_f = sorted({(arr, idx[0]) for (arr, idx) in envf.stores
                             if len(idx) == 1 and
                             (arr, idx) not in envf_before.stores}, key=repr)
         ok_l = False
         detail_l = "cut limit not recognised"
+        if len(touched_f) == 1:
+            # by value: the shrinking store removes `cp` from dimension d,
+            # and cp = (.. % lim) + 1
+            X, d = touched_f[0]
+            try:
+                cp = Poly.atom(("cell", X, (d,))) - bef.val(envf, X, d)
+            except Unsupported:
+                cp = None
+            a_cp0 = (cp - Poly.const(1)).as_atom() if isinstance(
+                cp, Poly) else None
+            if a_cp0 is not None and a_cp0[0] == "app" and \
+                    a_cp0[1] == "mod":
+                lim = a_cp0[2][1]
         if len(touched_f) == 1 and isinstance(lim, Poly) and isinstance(
                 cp, Poly):
             X, d = touched_f[0]
             other = Poly.atom(("cell", X, (Poly.const(1) - d,)))
             d1, c2 = _budget_margin(lim, other, area0)
             top_env = _top_env(BlockEval(ctx, fi), body, loop)
-            mn = top_env.vars.get("min_area")
+            mn = top_env.vars.get(_FLOOR)
             sp = "self.space."
             floor_area = (Poly.var(sp + "min_bins") - Poly.const(1)) * \
                 Poly.var(sp + "bin_width") * Poly.var(sp + "bin_height")
@@ -483,14 +555,14 @@ def _phase2(ctx: Ctx, fi: FuncInfo, loop: ast.While, items: str,
     # guard reads the ledger and stops at min_area
     g = ast.unparse(loop.test).replace(" ", "")
     ok_g = any(isinstance(c, ast.Compare) and isinstance(
-        c.left, ast.Name) and c.left.id == "current_area" and isinstance(
+        c.left, ast.Name) and c.left.id == _LEDGER and isinstance(
         c.ops[0], ast.Gt) and isinstance(c.comparators[0], ast.Name)
-        and c.comparators[0].id == "min_area"
+        and c.comparators[0].id == _FLOOR
         for c in ast.walk(loop.test)) or any(
         isinstance(c, ast.Compare) and isinstance(c.left, ast.Name)
-        and c.left.id == "min_area" and isinstance(c.ops[0], ast.Lt)
+        and c.left.id == _FLOOR and isinstance(c.ops[0], ast.Lt)
         and isinstance(c.comparators[0], ast.Name)
-        and c.comparators[0].id == "current_area"
+        and c.comparators[0].id == _LEDGER
         for c in ast.walk(loop.test))
     del g
     ctx.ob("D17.1", fi, loop.test, ok_g,
@@ -506,6 +578,10 @@ def _budget_margin(lim: Poly, other: Poly, area0: Poly) \
     c0 = lim.terms.get((), Fraction(0))
     rest = lim - Poly.const(c0)
     a = rest.as_atom()
+    if a is not None and a[0] == "ite" and a[1][0] in ("lt", "le") and \
+            {a[1][1], a[1][2]} == {a[2], a[3]} and a[1][1] == a[2]:
+        # `x if x < y else y` is min(x, y)
+        a = ("app", "min", (a[2], a[3]))
     if a is None or a[0] != "app":
         return None, None
     args = list(a[2]) if a[1] == "min" else [rest] \
@@ -517,7 +593,7 @@ def _budget_margin(lim: Poly, other: Poly, area0: Poly) \
             num, den = fa[2]
             if den != other:
                 return None, None
-            c2p = num - area0 + Poly.var("min_area")
+            c2p = num - area0 + Poly.var(_FLOOR)
             c2 = c2p.const_value()
             if c2 is None:
                 return None, None
@@ -532,14 +608,14 @@ def _dataflow(ctx: Ctx, fi: FuncInfo, body: list[ast.stmt], call: ast.Call,
     sp = "self.space."
     bw, bh = Poly.var(sp + "bin_width"), Poly.var(sp + "bin_height")
     nb = Poly.var(sp + "min_bins")
-    mn = env.vars.get("min_area")
+    mn = env.vars.get(_FLOOR)
     want = (nb - Poly.const(1)) * bw * bh
     off = (mn - want).const_value() if isinstance(mn, Poly) else None
     ctx.ob("D17.2", fi, phase2, off is not None and off >= 0,
            f"min_area = {show(mn) if isinstance(mn, Poly) else mn}; must be "
            "(min_bins - 1) * bin_area + c with c >= 0 (the margin itself is "
            "judged together with the cut limit)", construct="min_area")
-    ca = env.vars.get("current_area")
+    ca = env.vars.get(_LEDGER)
     ctx.ob("D17.2", fi, phase2, isinstance(ca, Poly) and ca == nb * bw * bh,
            f"current_area starts as {show(ca) if isinstance(ca, Poly) else ca}"
            "; phase 1 conserves min_bins * bin_area",
@@ -572,6 +648,39 @@ def _dataflow(ctx: Ctx, fi: FuncInfo, body: list[ast.stmt], call: ast.Call,
                 if rng:
                     cnt = be.ev.expr(env, g.iter.args[0])
                     ok_i = (e0, e1, cnt) == (bw, bh, nb)
+    # the same list built by `items = []` and an append loop
+    items_nm = call.args[3].id if len(call.args) == 4 and isinstance(
+        call.args[3], ast.Name) else None
+    empties = [s for s in body if isinstance(s, (ast.Assign, ast.AnnAssign))
+               and isinstance(getattr(s, "value", None), ast.List)
+               and not s.value.elts and isinstance(
+                   s.targets[0] if isinstance(s, ast.Assign) else s.target,
+                   ast.Name) and (s.targets[0] if isinstance(s, ast.Assign)
+                                  else s.target).id == items_nm]
+    if not ok_i and len(empties) == 1:
+        k0 = body.index(empties[0])
+        fill = next((s for s in body[k0 + 1:] if isinstance(s, ast.For)),
+                    None)
+        between = body[k0 + 1:body.index(fill)] if fill is not None else []
+        touched = any(isinstance(n, ast.Name) and n.id == items_nm
+                      for s in between for n in ast.walk(s))
+        if fill is not None and fill is not phase1 and not touched and \
+                not fill.orelse and len(fill.body) == 1 and isinstance(
+                fill.body[0], ast.Expr) and isinstance(
+                fill.body[0].value, ast.Call) and ast.unparse(
+                fill.body[0].value.func) == f"{items_nm}.append" and len(
+                fill.body[0].value.args) == 1 and isinstance(
+                fill.body[0].value.args[0], ast.List) and len(
+                fill.body[0].value.args[0].elts) == 2 and isinstance(
+                fill.iter, ast.Call) and isinstance(
+                fill.iter.func, ast.Name) and fill.iter.func.id == "range" \
+                and len(fill.iter.args) == 1:
+            el = fill.body[0].value.args[0].elts
+            try:
+                ok_i = (be.ev.expr(env, el[0]), be.ev.expr(env, el[1]),
+                        be.ev.expr(env, fill.iter.args[0])) == (bw, bh, nb)
+            except Unsupported:
+                ok_i = False
     ctx.ob("D17.2", fi, phase1, ok_i,
            "the item list starts as min_bins items of size bin_width x "
            "bin_height", construct="initial items")
@@ -588,7 +697,8 @@ def _determinism(ctx: Ctx, fi: FuncInfo, xname: str) -> None:
     ctx.count("decode_generators", len(gens))
     for g in gens:
         names = {n.id for a in list(g.args) + [k.value for k in g.keywords]
-                 for n in ast.walk(a) if isinstance(n, ast.Name)}
+                 for n in ast.walk(inline_locals(fi.node, a))
+                 if isinstance(n, ast.Name)}
         ok = bool(g.args or g.keywords) and names <= {xname, "int"} and \
             xname in names
         ctx.ob("D17.3", fi, g, ok,
@@ -836,19 +946,27 @@ def _merge_and_deliver(ctx: Ctx, fi: FuncInfo, items: str,
     sorts = [s for s in body if isinstance(s, ast.Expr)
              and src(s.value) == f"{items}.sort()"]
     merge = None
+    mlo = mnn = None
     for s in body:
         if isinstance(s, ast.While) and sorts and body.index(s) > \
                 body.index(sorts[0]) and isinstance(
-                s.test, ast.Compare) and isinstance(s.test.left, ast.Name):
+                s.test, ast.Compare) and len(s.test.ops) == 1 and \
+                isinstance(s.test.left, ast.Name) and isinstance(
+                s.test.comparators[0], ast.Name):
             merge = s
+            l_, r_ = s.test.left.id, s.test.comparators[0].id
+            if isinstance(s.test.ops[0], ast.Lt):
+                mlo, mnn = l_, r_
+            elif isinstance(s.test.ops[0], ast.Gt):
+                mlo, mnn = r_, l_
             break
     if not sorts or merge is None:
         problems.append("equal items are not brought together (sort) and "
                         "merged")
     else:
-        lo = merge.test.left.id
-        nn = src(merge.test.comparators[0])
-        if not isinstance(merge.test.ops[0], ast.Lt):
+        lo = mlo or merge.test.left.id
+        nn = mnn or src(merge.test.comparators[0])
+        if mlo is None:
             problems.append("the merge scan does not run while lo < n")
         pre = body[:body.index(merge)]
         lo0 = [s for s in pre if isinstance(s, (ast.Assign, ast.AnnAssign))
@@ -976,8 +1094,10 @@ def _merge_and_deliver(ctx: Ctx, fi: FuncInfo, items: str,
                             if lb is False:
                                 c = c_not(c)
                             # the edge taken implies len >= 1
+                            # (a length is never negative)
                             nonempty = lb in (True, False) and equivalent(
-                                c_and(c, ("le", LEN, Poly.const(0))),
+                                c_and(c, ("le", LEN, Poly.const(0)),
+                                      ("le", Poly.const(0), LEN)),
                                 ("false",))[0]
                         except Unsupported:
                             nonempty = False
@@ -998,47 +1118,15 @@ def _merge_and_deliver(ctx: Ctx, fi: FuncInfo, items: str,
 def _merge_by_slice(fi: FuncInfo, merge: ast.While, scan: ast.While,
                     items: str, lo: str, nn: str) -> str | None:
     """The other merge idiom: scan the run [lo, hi), append hi - lo to the
-    kept item, `del items[lo + 1:hi]`, n -= (hi - lo) - 1, lo += 1.  All
-    quantities are compared as values (locals inlined)."""
+    kept item, `del items[lo + 1:hi]` (possibly only when hi - lo > 1),
+    n -= (hi - lo) - 1, lo += 1.  All quantities are compared as values
+    (locals inlined, every path of a round)."""
+    from sa.casesplit import Splitter
     from sa.pathinline import paths
+    from sa.symterm import Evaluator
 
     def src(n: ast.AST | None) -> str:
         return ast.unparse(n).replace(" ", "") if n is not None else "?"
-    # the scan: while hi < n and items[hi] == cur: hi += 1
-    hi = None
-    if isinstance(scan.test, ast.BoolOp) and isinstance(
-            scan.test.op, ast.And):
-        for v in scan.test.values:
-            if isinstance(v, ast.Compare) and isinstance(
-                    v.left, ast.Name) and isinstance(
-                    v.ops[0], ast.Lt) and src(v.comparators[0]) == nn:
-                hi = v.left.id
-    if hi is None or [src(x) for x in scan.body] not in (
-            [f"{hi}+=1"], [f"{hi}={hi}+1"], [f"{hi}=1+{hi}"]):
-        return ("the run of equal items is not scanned as `while hi < n "
-                "and items[hi] == cur: hi += 1`")
-    qs = paths(merge.body)
-    if len(qs) != 1:
-        return "a round of the merge scan is not straight-line code"
-    q = qs[0]
-    scans = [e for e in q.events if e.kind == "loop" and e.node is scan]
-    dels = [e for e in q.events if e.kind == "other" and isinstance(
-        e.node, ast.Delete)]
-    apps = [e for e in q.events if e.kind == "expr" and isinstance(
-        e.value, ast.Call) and isinstance(e.value.func, ast.Attribute)
-        and e.value.func.attr == "append"]
-    if len(scans) != 1 or len(dels) != 1 or len(apps) != 1 or len(
-            q.events) != 3:
-        return ("a round of the merge scan must scan the run, append the "
-                "multiplicity and delete the duplicates")
-    # the scan starts at hi = lo and compares with items[lo]
-    test_in = src(scans[0].value)
-    if f"{items}[{lo}]=={items}[{lo}]" not in test_in or not (
-            test_in.startswith(f"{lo}<{nn}") or f"({lo}<{nn})" in test_in):
-        return "the scan of a run does not start at the kept item itself"
-    # after the scan `hi` is whatever the loop left: a free name
-    L, Hh, N = Poly.var(lo), Poly.var(hi), Poly.var(nn)
-    from sa.symterm import Evaluator
     pev = Evaluator()
     pev.int_transparent = True
     env = Env()
@@ -1048,46 +1136,192 @@ def _merge_by_slice(fi: FuncInfo, merge: ast.While, scan: ast.While,
             return pev.num(env, e) if e is not None else None
         except Unsupported:
             return None
-    mult = num(apps[0].value.args[0]) if len(
-        apps[0].value.args) == 1 else None
-    if mult != Hh - L or src(apps[0].value.func.value) != \
-            f"{items}[{lo}]":
-        return ("the multiplicity hi - lo is not appended to the kept "
-                "item")
-    dv = dels[0].value or []
-    tgt = dv[0] if len(dv) == 1 else None
-    ok_del = isinstance(tgt, ast.Subscript) and src(
-        tgt.value) == items and isinstance(tgt.slice, ast.Slice) and \
-        tgt.slice.step is None
-    if ok_del:
-        lo_e = num(tgt.slice.lower)
-        hi_e = num(tgt.slice.upper)
-        ok_del = lo_e == L + Poly.const(1) and hi_e == Hh
-    if not ok_del:
-        return ("the duplicates items[lo + 1:hi] are not deleted")
-    n_new = num(q.env.get(nn))
-    lo_new = num(q.env.get(lo))
-    if n_new != N - (Hh - L) + Poly.const(1):
-        return ("the number of rows is not reduced by the number of "
-                "deleted duplicates")
-    if lo_new != L + Poly.const(1):
-        return "the merge scan does not advance to the next distinct item"
-    # the append of the multiplicity precedes the deletion and follows the
-    # scan
-    order = [q.events.index(scans[0]), q.events.index(apps[0]),
-             q.events.index(dels[0])]
-    if order != sorted(order):
-        return "merge steps out of order (scan, append, delete)"
+    # the scan: while hi < n and items[hi] == cur: hi += 1
+    hi = None
+    if isinstance(scan.test, ast.BoolOp) and isinstance(
+            scan.test.op, ast.And):
+        for v in scan.test.values:
+            if isinstance(v, ast.Compare) and len(v.ops) == 1:
+                l_, r_, op = v.left, v.comparators[0], v.ops[0]
+                if isinstance(op, ast.Lt) and isinstance(
+                        l_, ast.Name) and src(r_) == nn:
+                    hi = l_.id
+                if isinstance(op, ast.Gt) and isinstance(
+                        r_, ast.Name) and src(l_) == nn:
+                    hi = r_.id
+    if hi is None or [src(x) for x in scan.body] not in (
+            [f"{hi}+=1"], [f"{hi}={hi}+1"], [f"{hi}=1+{hi}"]):
+        return ("merge idiom not recognised: the run of equal items is not "
+                "scanned as `while hi < n and items[hi] == cur: hi += 1`")
+    L, Hh, N = Poly.var(lo), Poly.var(hi), Poly.var(nn)
+    one = Poly.const(1)
+    try:
+        qs = paths(merge.body)
+    except ValueError:
+        return "merge idiom not recognised: too many paths in a round"
+    sp = Splitter(integer=True)
+    saw_delete = False
+    for q in qs:
+        if q.ended:
+            return "a round of the merge scan can end early"
+        scans = [e for e in q.events if e.kind == "loop" and e.node is scan]
+        dels = [e for e in q.events if e.kind == "other" and isinstance(
+            e.node, ast.Delete)]
+        apps = [e for e in q.events if e.kind == "expr" and isinstance(
+            e.value, ast.Call) and isinstance(e.value.func, ast.Attribute)
+            and e.value.func.attr == "append"]
+        if len(scans) != 1 or len(dels) > 1 or len(apps) != 1 or len(
+                q.events) != 2 + len(dels):
+            return ("a round of the merge scan must scan the run, append "
+                    "the multiplicity and delete the duplicates")
+        # the scan starts at the kept item itself or right behind it and
+        # compares with items[lo]
+        hi0 = num((scans[0].pre or {}).get(hi))
+        test_in = src(scans[0].value)
+        cmp_ok = any(f"{items}[{lo}]=={items}[{h_}]" in test_in or
+                     f"{items}[{h_}]=={items}[{lo}]" in test_in
+                     for h_ in (lo, f"{lo}+1", f"1+{lo}"))
+        if hi0 not in (L, L + one) or not cmp_ok:
+            return "the scan of a run does not start at the kept item itself"
+        # after the scan `hi` is whatever the loop left: a free name with
+        # hi >= lo + 1 (the kept item equals itself)
+        facts = sp.facts_of(("le", L + one, Hh), True)[0]
+        try:
+            for t, truth in q.guards:
+                c = pev.cond(env, t)
+                fs = sp.facts_of(c, truth)
+                if len(fs) != 1:
+                    raise Unsupported("disjunctive guard")
+                facts = facts + fs[0]
+        except Unsupported:
+            return "merge idiom not recognised: guard of the deletion"
+        mult = num(apps[0].value.args[0]) if len(
+            apps[0].value.args) == 1 else None
+        if mult != Hh - L or src(apps[0].value.func.value) != \
+                f"{items}[{lo}]":
+            return ("the multiplicity hi - lo is not appended to the kept "
+                    "item")
+        if dels:
+            saw_delete = True
+            dv = dels[0].value or []
+            tgt = dv[0] if len(dv) == 1 else None
+            ok_del = isinstance(tgt, ast.Subscript) and src(
+                tgt.value) == items and isinstance(
+                tgt.slice, ast.Slice) and tgt.slice.step is None
+            if ok_del:
+                lo_e = num(tgt.slice.lower)
+                hi_e = num(tgt.slice.upper)
+                ok_del = lo_e == L + one and hi_e == Hh
+            if not ok_del:
+                return "the duplicates items[lo + 1:hi] are not deleted"
+        else:
+            # nothing deleted: only right when the run has one element
+            if not sp.equal(Hh - L, one, facts):
+                return ("duplicates are kept: a round can skip the deletion "
+                        "although the run has more than one element")
+        n_new = num(q.env.get(nn)) if nn in q.env else N
+        lo_new = num(q.env.get(lo))
+        if n_new is None or not sp.equal(
+                n_new, N - (Hh - L) + one, facts):
+            return ("the number of rows is not reduced by the number of "
+                    "deleted duplicates")
+        if lo_new != L + one:
+            return ("the merge scan does not advance to the next distinct "
+                    "item")
+        order = [q.events.index(scans[0]), q.events.index(apps[0])] + [
+            q.events.index(d) for d in dels]
+        if order != sorted(order):
+            return "merge steps out of order (scan, append, delete)"
+    if not saw_delete:
+        return "the duplicates items[lo + 1:hi] are never deleted"
     return None
 
 
 # ------------------------------------------------------------------ D17.8
-def _search_protocol(ctx: Ctx, fi: FuncInfo) -> None:
+def _search_protocol(ctx: Ctx, fi: FuncInfo, items: str = "items") -> None:
     """The search for a cuttable item visits every item in both directions
     of cutting; no division by a value that may be zero."""
     from sa.lin import entails
     repo = ctx.repo
     problems: list[str] = []
+
+    # ---- roles, from the way names are used (never from their spelling)
+    def _t(d: ast.stmt) -> ast.expr:
+        return d.targets[0] if isinstance(d, ast.Assign) else d.target
+    binds = [d for d in ast.walk(fi.node) if isinstance(
+        d, (ast.Assign, ast.AnnAssign)) and getattr(d, "value", None)
+        is not None and isinstance(_t(d), ast.Name)]
+    # item aliases `a = items[I]` inside a search loop (a `while` nested in
+    # a loop): I is the position of the search
+    inner_whiles = [w for lp in ast.walk(fi.node) if isinstance(
+        lp, (ast.For, ast.While)) for w in ast.walk(lp)
+        if isinstance(w, ast.While) and w is not lp]
+    in_search = {id(x) for w in inner_whiles for x in ast.walk(w)}
+    ALIAS: set[str] = set()
+    POS: set[str] = set()
+    for d in binds:
+        v = d.value
+        if id(d) in in_search and isinstance(v, ast.Subscript) and \
+                isinstance(v.value, ast.Name) and v.value.id == items and \
+                isinstance(v.slice, ast.Name):
+            ALIAS.add(_t(d).id)
+            POS.add(v.slice.id)
+    # the cutting dimension: a name that indexes an item alias
+    CD: set[str] = set()
+    for n in ast.walk(fi.node):
+        if isinstance(n, ast.Subscript) and isinstance(
+                n.value, ast.Name) and n.value.id in ALIAS and id(
+                n) in in_search:
+            for x in ast.walk(n.slice):
+                if isinstance(x, ast.Name):
+                    CD.add(x.id)
+    # names derived from the dimension by +/- (e.g. other = 1 - dim) are
+    # not dimensions themselves; keep the ones that are assigned 0/1 forms
+    CD = {c for c in CD if not any(
+        _t(d).id == c and isinstance(d.value, ast.BinOp) and any(
+            isinstance(x, ast.Name) and x.id in CD and x.id != c
+            for x in ast.walk(d.value)) for d in binds)}
+    # the step `I = (I + D) % n`: D is the direction, n the modulus
+    DIR: set[str] = set()
+    MODN: set[str] = set()
+    for d in binds:
+        if _t(d).id in POS and id(d) in in_search:
+            for x in ast.walk(d.value):
+                if isinstance(x, ast.BinOp) and isinstance(
+                        x.op, ast.Add) and any(
+                        isinstance(y, ast.Name) and y.id in POS
+                        for y in (x.left, x.right)):
+                    for y in (x.left, x.right):
+                        if isinstance(y, ast.Name) and y.id not in POS:
+                            DIR.add(y.id)
+                if isinstance(x, ast.BinOp) and isinstance(
+                        x.op, ast.Mod) and isinstance(x.right, ast.Name):
+                    MODN.add(x.right.id)
+    # the start of the scan: a name compared for equality with the position
+    ORIG: set[str] = set()
+    for n in ast.walk(fi.node):
+        if isinstance(n, ast.Compare) and len(n.ops) == 1 and isinstance(
+                n.ops[0], ast.Eq) and id(n) in in_search:
+            names = [x.id for x in [n.left] + n.comparators
+                     if isinstance(x, ast.Name)]
+            if len(names) == 2 and any(x in POS for x in names):
+                ORIG |= {x for x in names if x not in POS}
+    # sizes read from an item are >= 1 (rule D17.5 keeps that invariant)
+    SIZES = {_t(d).id for d in binds if isinstance(
+        d.value, ast.Subscript) and isinstance(d.value.value, ast.Name)
+        and d.value.value.id in ALIAS}
+    SIZES = {z for z in SIZES if all(
+        isinstance(d.value, ast.Subscript) and isinstance(
+            d.value.value, ast.Name) and d.value.value.id in ALIAS
+        for d in binds if _t(d).id == z)}
+    if not (ALIAS and POS and CD and DIR and ORIG):
+        ctx.ob("D17.8", fi, fi.node, False,
+               "search protocol not recognised: no `item = items[i]` with a "
+               "stepping position, a cutting dimension, a direction and a "
+               f"wrap test found (position {sorted(POS)}, dimension "
+               f"{sorted(CD)}, direction {sorted(DIR)}, start {sorted(ORIG)})",
+               construct="search for a cuttable item")
+        return
 
     def asg(name: str) -> list[ast.expr]:
         return [d.value for d in ast.walk(fi.node) if isinstance(
@@ -1127,36 +1361,37 @@ def _search_protocol(ctx: Ctx, fi: FuncInfo) -> None:
                     for x in a for y in b}
         return None
     # the cutting dimension is 0 or 1 (an index into [width, height])
-    for v in asg("cut_dimension"):
-        d = domain(v, {"cut_dimension": {0, 1}})
-        if d is None or not d <= {0, 1}:
-            problems.append(f"`cut_dimension = {ast.unparse(v)}` can leave "
-                            f"{{0, 1}} (values {sorted(d) if d else '?'})")
-    derived = {"cut_dimension"} | {
-        (d.targets[0] if isinstance(d, ast.Assign) else d.target).id
-        for d in ast.walk(fi.node) if isinstance(
-            d, (ast.Assign, ast.AnnAssign)) and d.value is not None
-        and isinstance(d.targets[0] if isinstance(d, ast.Assign)
-                       else d.target, ast.Name)
-        and isinstance(d.value, ast.BinOp)
-        and "cut_dimension" in ast.unparse(d.value)}
-    other = [n for n in ast.walk(fi.node) if isinstance(n, ast.Subscript)
-             and ((isinstance(n.slice, ast.BinOp) and "cut_dimension" in
-                   ast.unparse(n.slice)) or (isinstance(
-                       n.slice, ast.Name) and n.slice.id in derived
-                 and n.slice.id != "cut_dimension"))]
-    for n in other:
-        d = domain(n.slice, {"cut_dimension": {0, 1}})
-        if d is None or not d <= {0, 1}:
-            problems.append(f"`{ast.unparse(n)}` indexes outside "
-                            "[width, height]")
+    cd_env = {c: {0, 1} for c in CD}
+    for c in sorted(CD):
+        for v in asg(c):
+            v2 = v
+            # int(<comparison>) is 0 or 1
+            if isinstance(v, ast.Call) and isinstance(
+                    v.func, ast.Name) and v.func.id == "int" and len(
+                    v.args) == 1 and isinstance(
+                    v.args[0], (ast.Compare, ast.BoolOp)):
+                continue
+            d = domain(v2, cd_env)
+            if d is None or not d <= {0, 1}:
+                problems.append(f"`{c} = {ast.unparse(v)}` can leave "
+                                f"{{0, 1}} (values "
+                                f"{sorted(d) if d else '?'})")
+    for n in ast.walk(fi.node):
+        if isinstance(n, ast.Subscript) and isinstance(
+                n.value, ast.Name) and n.value.id in ALIAS and not (
+                isinstance(n.slice, ast.Name) and n.slice.id in CD):
+            d = domain(n.slice, cd_env)
+            if d is None or not d <= {0, 1}:
+                problems.append(f"`{ast.unparse(n)}` indexes outside "
+                                "[width, height]")
     # the search direction is +1 or -1
-    for v in asg("sel_dir"):
-        d = domain(v, {})
-        if d is None or not d <= {-1, 1}:
-            problems.append(f"`sel_dir = {ast.unparse(v)}`: with a step "
-                            "other than +-1 the search can miss items and "
-                            "never end")
+    for dn in sorted(DIR):
+        for v in asg(dn):
+            d = domain(v, {})
+            if d is None or not d <= {-1, 1}:
+                problems.append(f"`{dn} = {ast.unparse(v)}`: with a step "
+                                "other than +-1 the search can miss items "
+                                "and never end")
     # the step: sel_i := (sel_i + sel_dir) mod n (possibly re-normalised)
     def strip(e: ast.expr) -> ast.expr:
         # ((A % n) + n) % n  ==  (n + (A % n)) % n  ==  A % n
@@ -1171,27 +1406,29 @@ def _search_protocol(ctx: Ctx, fi: FuncInfo) -> None:
                         a_.right) == ast.unparse(e.right):
                     return a_
         return e
-    steps = [v for v in asg("sel_i") if "sel_dir" in ast.unparse(v)
-             or "sel_i" in ast.unparse(v)]
+    steps = [(p_, v) for p_ in sorted(POS) for v in asg(p_) if any(
+        isinstance(x, ast.Name) and (x.id in DIR or x.id in POS)
+        for x in ast.walk(v))]
     if len(steps) < 2:
         problems.append("the step to the next item (sel_i + sel_dir) was "
                         "not found in both phases")
     from sa.symterm import Evaluator
     pev = Evaluator()
-    for v in steps:
+    for p_, v in steps:
         core = strip(v)
         ok = isinstance(core, ast.BinOp) and isinstance(
-            core.op, ast.Mod) and ast.unparse(core.right) == "cur_n_items"
+            core.op, ast.Mod) and isinstance(
+            core.right, ast.Name) and core.right.id in MODN
         if ok:
             try:
-                ok = pev.num(Env(), core.left) == Poly.var(
-                    "sel_i") + Poly.var("sel_dir")
+                lhs = pev.num(Env(), core.left)
+                ok = any(lhs == Poly.var(p_) + Poly.var(dn) for dn in DIR)
             except Unsupported:
                 ok = False
         if not ok:
-            problems.append(f"`sel_i = {ast.unparse(v)[:60]}` is not (sel_i "
-                            "+ sel_dir) mod n: not every item is visited, "
-                            "the search may not end")
+            problems.append(f"`{p_} = {ast.unparse(v)[:60]}` is not "
+                            "(position + direction) mod n: not every item "
+                            "is visited, the search may not end")
     # divisions / moduli by values that are >= 1 under their guards
     def walk(stmts: list[ast.stmt], facts: list[Any]) -> None:
         for s in stmts:
@@ -1205,8 +1442,8 @@ def _search_protocol(ctx: Ctx, fi: FuncInfo) -> None:
             for n in ast.walk(s):
                 if isinstance(n, ast.BinOp) and isinstance(
                         n.op, (ast.Mod, ast.FloorDiv)) and isinstance(
-                        n.right, ast.Name) and n.right.id in (
-                        "cut_modulus",):
+                        n.right, ast.Name) and n.right.id not in MODN \
+                        and n.right.id not in SIZES and id(n) in in_search:
                     g = _lin_expr(n.right)
                     if g is None or not entails(facts, g - 1):
                         problems.append(
@@ -1248,7 +1485,7 @@ def _search_protocol(ctx: Ctx, fi: FuncInfo) -> None:
         return None
     for w in ast.walk(fi.node):
         if isinstance(w, ast.While) and bounded(w.test) is not None and any(
-                isinstance(x, ast.Name) and x.id == "orig_sel_i"
+                isinstance(x, ast.Name) and x.id in ORIG
                 for x in ast.walk(w)):
             v = bounded(w.test)
             writes = [a for a in ast.walk(w) if isinstance(
@@ -1258,9 +1495,12 @@ def _search_protocol(ctx: Ctx, fi: FuncInfo) -> None:
                     else [a.target]))]
             wraps = [i_ for i_ in ast.walk(w) if isinstance(i_, ast.If)
                      and isinstance(i_.test, ast.Compare) and isinstance(
-                         i_.test.ops[0], ast.Eq) and sorted(
-                         ast.unparse(x) for x in [i_.test.left]
-                         + i_.test.comparators) == ["orig_sel_i", "sel_i"]]
+                         i_.test.ops[0], ast.Eq) and len(
+                         i_.test.comparators) == 1 and any(
+                         ast.unparse(x) in ORIG for x in [i_.test.left]
+                         + i_.test.comparators) and any(
+                         ast.unparse(x) in POS for x in [i_.test.left]
+                         + i_.test.comparators)]
             good = [a for a in writes if (inc_of(a, v) or 0) >= 1]
             in_wrap = any(any(a is x for x in ast.walk(
                 ast.Module(body=i_.body, type_ignores=[])))
@@ -1333,6 +1573,9 @@ def _zero_on_template(ctx: Ctx) -> None:
                     inst = tg.id
     loop = next((s for s in body if isinstance(s, ast.For)), None)
     problems: list[str] = []
+    # the local that holds the instance space (`space = self.space`)
+    SPN = next((k for k, v in local.items() if v == "self.space"), "space")
+    SPD = SPN + "."
     if inst is None or loop is None:
         ctx.ob("D17.9", er, er.node, False,
                "Errors.evaluate structure not recognised",
@@ -1415,7 +1658,7 @@ def _zero_on_template(ctx: Ctx) -> None:
     for v, (kind, c) in fold.items():
         init = local.get(v, "")
         neutral = (kind == "max" and init == "0") or (
-            kind == "min" and init in ("space.bin_width", "space.bin_height")
+            kind == "min" and init in (SPD + "bin_width", SPD + "bin_height")
             and ("WIDTH" in c) == init.endswith("width"))
         if not neutral:
             problems.append(f"`{v}` starts at `{init}`, which is not "
@@ -1461,9 +1704,9 @@ def _zero_on_template(ctx: Ctx) -> None:
                 a != area_var else a
             b = local.get(b, b) if b in local and b not in fold and \
                 b != area_var else b
-            if not b.startswith("space."):
+            if not b.startswith(SPD):
                 a, b = b, a
-            attr = b[len("space."):] if b.startswith("space.") else None
+            attr = b[len(SPD):] if b.startswith(SPD) else None
             st = space_stat.get(attr or "")
             if st is None:
                 problems.append(f"`{src(call_)}`: the goal `{b}` is not an "
@@ -1505,8 +1748,8 @@ def _zero_on_template(ctx: Ctx) -> None:
                     w, g = g, w
                     lo, hi = hi, lo
                 gv = local.get(g, g)
-                st = space_stat.get(gv[len("space."):]) if gv.startswith(
-                    "space.") else None
+                st = space_stat.get(gv[len(SPD):]) if gv.startswith(
+                    SPD) else None
                 amt = c.body[0].value
                 names = {x.id for x in ast.walk(amt)
                          if isinstance(x, ast.Name)}
